@@ -624,8 +624,8 @@ def _one(rep, net, orc, cfg):
 
 
 def run_shard(rep, tier, seed, shard, nshards):
-    dl = Deadline(budget(tier, 32, 200))
-    ncases = budget(tier, 1000, 6000)
+    dl = Deadline(budget(tier, 32, 420))
+    ncases = budget(tier, 1000, 20000)
     if tier == "quick":
         nchoices = (3, 3, 4, 4, 4, 5, 5, 5, 5, 6, 6, 6)
     else:
